@@ -23,6 +23,7 @@ import (
 	"go/types"
 	"os"
 	"path/filepath"
+	"sort"
 	"strings"
 )
 
@@ -251,6 +252,49 @@ func main() {
 		}
 		if !found {
 			fail("variable %s not found in %s", os.Args[3], os.Args[2])
+		}
+	case "callsites":
+		// facts callsites <pkgdir> <name>...   every call whose callee is (a selector ending in) one of the names, in the
+		// non-test files of the package: "<file>\t<enclosing function (Recv.Name)>\t<callee as written>", sorted
+		fset, files := loadPkg(os.Args[2])
+		want := map[string]bool{}
+		for _, n := range os.Args[3:] {
+			want[n] = true
+		}
+		var out []string
+		for _, f := range files {
+			fname := filepath.Base(fset.Position(f.Pos()).Filename)
+			for _, d := range f.Decls {
+				fd, ok := d.(*ast.FuncDecl)
+				if !ok || fd.Body == nil {
+					continue
+				}
+				encl := fd.Name.Name
+				if fd.Recv != nil && len(fd.Recv.List) > 0 {
+					encl = strings.TrimPrefix(src(fset, fd.Recv.List[0].Type), "*") + "." + encl
+				}
+				ast.Inspect(fd.Body, func(nd ast.Node) bool {
+					ce, ok := nd.(*ast.CallExpr)
+					if !ok {
+						return true
+					}
+					name := ""
+					switch fn := ce.Fun.(type) {
+					case *ast.SelectorExpr:
+						name = fn.Sel.Name
+					case *ast.Ident:
+						name = fn.Name
+					}
+					if want[name] {
+						out = append(out, fname+"\t"+encl+"\t"+src(fset, ce.Fun))
+					}
+					return true
+				})
+			}
+		}
+		sort.Strings(out)
+		for _, l := range out {
+			fmt.Println(l)
 		}
 	case "funcsrc":
 		// prints the normalised source text of a function (or method "Recv.Name") — a change detector
